@@ -1206,12 +1206,12 @@ class SetElement(ContentElement):
     '''Maintains state when parsing the element
     '''
     def process_lang_attribute(self, parent_ctx: TTMLElement.ParsingContext, xml_elem):
-      # <set> ignores xml:lang
-      pass
+      # <set> ignores xml:lang but any (invalid) child element still inherits it
+      self.lang = parent_ctx.lang
 
     def process_space_attribute(self, parent_ctx: TTMLElement.ParsingContext, xml_elem):
-      # <set> ignores xml:space
-      pass
+      # <set> ignores xml:space but any (invalid) child element still inherits it
+      self.space = parent_ctx.space
 
   qn = f"{{{xml_ns.TTML}}}set"
   has_region = False
